@@ -195,6 +195,45 @@ def _near_singular(res, rng):
                                           f"for an activity index within {d:.0e} of {y0:g}", rep)
 
 
+def _rebuilt_oracle(res, rng):
+    """models REBUILT the way the library's calibration builds them (rpylib/model/utils.py): deep copy of the parameters, one
+    attribute set to a new value, initialisation(), construction of the model -- every parameter of every family in turn.
+    The closed forms (which may read quantities cached in the parameters) must still be the integrals of the rebuilt model's
+    own density: integrate / _x / _xx / _xn, one side of zero, straddling, half-lines, truncated."""
+    import copy
+    from rpylib.model.levymodel.levymodel import TruncatedLevyMeasure
+    news = {"hem": dict(sigma=[0.2], p=[0.25, 0.8], eta1=[4.0, 25.0], eta2=[2.5, 18.0], intensity=[0.6, 6.0]),
+            "merton": dict(sigma=[0.2], mu_j=[0.3, 0.02], sigma_j=[0.1, 0.45], intensity=[0.4, 3.0]),
+            "vg": dict(sigma=[0.3, 0.09], nu=[0.6, 0.08], theta=[0.2, -0.3]),
+            "cgmy": dict(c=[0.12, 2.4], g=[2.5, 11.0], m=[12.0, 3.0], y=[1.3, -0.5, 1.0, 0.0, 0.7])}
+    for kind in ("hem", "merton", "vg", "cgmy"):
+        base_params = dict(L.FIXED[kind][0]) if kind != "cgmy" else dict(c=0.05, g=10.0, m=8.0, y=0.5)
+        base_model, _ = L.build(kind, base_params)
+        for name, values in news[kind].items():
+            for value in (values if res.tier != "quick" else values[:2]):
+                pars = copy.deepcopy(base_model.parameters)
+                setattr(pars, name, value)
+                pars.initialisation()
+                model = type(base_model)(pars)
+                nu = model.levy_triplet.nu
+                params = dict(base_params, **{name: value})
+                res.bump("rebuilt_parameter", f"{kind}.{name}")
+                l, r = -L._pt(rng), L._pt(rng)
+                tnu = TruncatedLevyMeasure(nu, (l, r))
+                ikinds = ("straddle", "straddle", "pos", "neg", "touch0-right", "left-halfline-straddle", "right-halfline-straddle", "whole-line")
+                for ikind in (ikinds if res.tier != "quick" else ("straddle", "neg", "touch0-right", "right-halfline-straddle")):
+                    a, b = L.interval(rng, ikind)
+                    for n in range(4):
+                        for via in (["direct", "xn"] if n <= 2 else ["xn"]):
+                            for meas, trunc in ((nu, None), (tnu, (l, r))):
+                                before = len(res.violations)
+                                _check_one(res, kind, params, meas, a, b, n, via, "rebuilt:" + ikind, trunc=trunc)
+                                for v in res.violations[before:]:
+                                    v["what"] = ("after the calibration sequence (deepcopy parameters, set " + name + ", initialisation(), rebuild): " + v["what"])
+                                    v["replay"].update(rebuilt=dict(base=base_params, attribute=name, value=value))
+                                    v["replay"].pop("finding", None)
+
+
 def matches_known(v, known):
     """a recorded finding explains only the failures it predicts"""
     r = v["replay"]
@@ -647,6 +686,7 @@ def correspond(res):
     rng = random.Random(res.seed)
     _oracle(res, rng)
     _near_singular(res, random.Random(res.seed + 3))
+    _rebuilt_oracle(res, random.Random(res.seed + 5))
     _coq(res, random.Random(res.seed + 1))
 
 
@@ -671,6 +711,14 @@ def replay(path):
     if k == "integral":
         kind, params = data["model"], data["params"]
         _, nu = L.build(kind, params)
+        if data.get("rebuilt"):
+            import copy
+            rb = data["rebuilt"]
+            base_model, _ = L.build(kind, rb["base"])
+            pars = copy.deepcopy(base_model.parameters)
+            setattr(pars, rb["attribute"], rb["value"])
+            pars.initialisation()
+            nu = type(base_model)(pars).levy_triplet.nu
         if data.get("truncations"):
             from rpylib.model.levymodel.levymodel import TruncatedLevyMeasure
             nu = TruncatedLevyMeasure(nu, tuple(data["truncations"]))
